@@ -61,14 +61,17 @@ def main():
     us = [[], ["+"], ["-"], ["+", "-"], ["-", "+"]]
     words = us + [["Z"] + u for u in us]
 
-    def mkop(w, dof):
+    def mkop(w, dof, style):
         if not w:
             return Op.identity(dof)
-        return Op(" ".join("sigma_z" if s == "Z" else ("sigma_+" if s == "+" else "sigma_-") for s in w), dof,
-                  qn=[0] * len(w))
-    for a in words:
+        if style == "sigma":
+            return Op(" ".join("sigma_z" if s == "Z" else ("sigma_+" if s == "+" else "sigma_-") for s in w), dof,
+                      qn=[0] * len(w))
+        return Op(" ".join(w), dof, qn=[0] * len(w))      # the symbols qc_model emits: Z + -
+    for style in ("sigma", "short"):
+      for a in words:
         for b in words:
-            prim = [Op.identity(0), mkop(a, 0), mkop(b, 1)]
+            prim = [Op.identity(0), mkop(a, 0, style), mkop(b, 1, style)]
             op2idx = {op: i for i, op in enumerate(prim)}
             try:
                 row, coeff = table_row_swapped_jw([0, 1, 2, 0, 0], prim, op2idx)
@@ -78,7 +81,7 @@ def main():
             n1 = prim[row[1]]
             n2 = prim[row[2]]
             reqs.append(f"swap {word_of(a)} {word_of(b)}")
-            meta.append(("swap", dict(op1=a, op2=b), None,
+            meta.append(("swap", dict(op1=a, op2=b, symbols=style), None,
                          f"{'-' if coeff == -1 else '+'} {word_of(n1.split_symbol)} {word_of(n2.split_symbol)}"))
     replies = common.run_driver("RenoVerif/Driver/C17.lean", reqs)
     # evaluate
